@@ -135,7 +135,7 @@ def tlc(module_path, cfg=None, workers=1, env=None, timeout=600, simulate=None, 
             res.rc = p.returncode
             # read only the non-bulk lines for parsing
             with open(dump_out, errors="replace") as fi:
-                keep = [ln for ln in fi if not ln.startswith("<<\"REPLAY\"")]
+                keep = [ln for ln in fi if not ln.startswith(('<<"REPLAY"', '"REPLAY'))]
             res.out = "".join(keep[-4000:]) if len(keep) > 4000 else "".join(keep)
         else:
             p = subprocess.run(cmd, cwd=d, env=e, capture_output=True, text=True, timeout=timeout)
